@@ -100,6 +100,17 @@ fn structured_inputs(thorough: bool) -> Vec<String> {
       out.push(to_text(&json!({"mappings": [{"from": {"row": row}, "to": {"letters": "a".repeat(total)}, "repeat": {"Special": {"keys": {"letters": letters}, "delay_ms": 1, "interval_ms": 1}}}]})));
     } } }
   }
+  // (ii-d) rejected mappings whose text carries a multi-byte character at every byte offset up to 300 (error messages that
+  // quote or abbreviate the offending JSON must not slice inside a character)
+  for pad in 0..300usize { for wide in ['\u{df}', '\u{20ac}', '\u{1F600}'] {
+    let tail: String = std::iter::repeat(wide).take(4).collect();
+    let filler = "a".repeat(pad);
+    out.push(to_text(&json!({"mappings": [{"from": "A", "to": "B", "repeat": format!("{}{}", filler, tail)}]})));
+    out.push(to_text(&json!({"mappings": [{"from": format!("{}{}", filler, tail), "to": "B"}]})));
+    out.push(to_text(&json!({"mappings": [{"from": {"row": "A"}, "to": {"letters": format!("{}{}", filler, tail)}, "repeat": "Disable"}]})));
+    out.push(to_text(&json!({"mappings": [{"from": ["@zz", "A"], "to": "B", "comment": format!("{}{}", filler, tail)}]})));
+    out.push(to_text(&json!({"mappings": [{"from": "A", "to": "B", "absorbing": [format!("{}{}", filler, tail)]}], "x": format!("{}{}", filler, tail)})));
+  } }
   // (iii) structure-aware mutations of the seeds: all single mutations; thorough: all pairs within one mapping object
   for seed in seeds() {
     let mut ns = vec![]; nodes(&seed, &mut vec![], &mut ns);
